@@ -37,6 +37,11 @@ fn main() {
         println!("wrong-key cells: {v:?}");
         std::process::exit(if v.is_empty() { 0 } else { 1 });
     }
+    if args.get(1).map(|s| s.as_str()) == Some("--odd-host") {
+        let v = c14::odd_host_cells();
+        println!("odd-host cells: {v:?}");
+        std::process::exit(if v.is_empty() { 0 } else { 1 });
+    }
     if args.get(1).map(|s| s.as_str()) == Some("--session-sequence") {
         let v = c14::session_sequence_cells();
         println!("session-sequence cells: {v:?}");
@@ -73,11 +78,14 @@ fn main() {
     for (sig, what, case) in c14::session_sequence_cells() {
         println!("{}", json!({"t": "v", "sig": sig, "what": what, "case": case, "rank": 1}));
     }
+    for (sig, what, case) in c14::odd_host_cells() {
+        println!("{}", json!({"t": "v", "sig": sig, "what": what, "case": case, "rank": 1}));
+    }
     let r = c14::run_matrix();
     for (sig, what, case, rank) in &r.violations {
         println!("{}", json!({"t": "v", "sig": sig, "what": what, "case": case, "rank": rank}));
     }
-    println!("{}", json!({"t": "done", "n": r.n + 64 + 6 + c14::ODD_CHAIN_CELLS + c14::SESSION_SEQUENCE_CELLS, "outcomes": r.outcomes}));
+    println!("{}", json!({"t": "done", "n": r.n + 64 + 6 + c14::ODD_CHAIN_CELLS + c14::SESSION_SEQUENCE_CELLS + c14::ODD_HOST_CELLS, "outcomes": r.outcomes}));
 }
 
 //
